@@ -117,11 +117,30 @@ func init() {
 		"strconv.Itoa":  stubItoa,
 		"strconv.Quote": stubQuote,
 
-		"path.Dir":           stubNativeStr1(pathpkg.Dir),
-		"path.Base":          stubNativeStr1(pathpkg.Base),
-		"path.Join":          stubPathJoin,
-		"path/filepath.Dir":  stubNativeStr1(filepath.Dir),
-		"path/filepath.Base": stubNativeStr1(filepath.Base),
+		"path.Dir":            stubNativeStr1(pathpkg.Dir),
+		"path.Base":           stubNativeStr1(pathpkg.Base),
+		"path.Join":           stubPathJoin,
+		"path/filepath.Dir":   stubNativeStr1(filepath.Dir),
+		"path/filepath.Base":  stubNativeStr1(filepath.Base),
+		"path/filepath.Clean": stubNativeStr1(filepath.Clean),
+		"path/filepath.IsAbs": func(p *path, _ *frame, a []value) value {
+			s := a[0].(Str)
+			if len(s.b) == 0 {
+				return p.tc.ff
+			}
+			return p.tc.Eq(s.b[0], p.byteConst('/'))
+		},
+		"path/filepath.Join": func(p *path, _ *frame, a []value) value {
+			var parts []string
+			for _, e := range a[0].([]value) {
+				s := e.(Str)
+				if !s.IsConcrete() {
+					p.unsupported("filepath.Join on a symbolic string")
+				}
+				parts = append(parts, s.Concrete())
+			}
+			return p.mkStr(filepath.Join(parts...))
+		},
 
 		"go/constant.MakeInt64": stubMakeInt64,
 		"go/constant.Int64Val":  stubInt64Val,
